@@ -52,7 +52,7 @@ def run(ctx):
                     assumptions=["block bytes are abstracted to {cid; length}; the digest is the table of MD5 values computed by Go for the contents of the case (theorems hold for every digest function)",
                                  "requests are sent to the handler returned by handler.setup (MakeRESTRouter) through httptest.ResponseRecorder: HTTP framing by net/http is not exercised",
                                  "Touch of a file that was just read successfully is assumed to succeed (no concurrent actor; that race is C04)",
-                                 "the single shared buffer of the sequential cases is never cleared; the harness pools count 1-4 buffers as taken by other clients for the whole case (so that a handler that gives a buffer back twice does not block for ever in the pool's accounting but really leaves the buffer in the pool twice); a request whose handler does not return within 30 s (1 s after the first such request of a run) is recorded as unanswered and ends its case",
+                                 "the single shared buffer of the sequential cases is never cleared; the harness pools count 1-4 buffers as taken by other clients for the whole case (so that a handler that gives a buffer back twice does not block for ever in the pool's accounting but really leaves the buffer in the pool twice); a request whose handler does not return within 60 s (1 s after the first such request of a run) is recorded as unanswered and ends its case",
                                  "overlap cases: the other requests run inside the stalled request's Write/Read call under GOMAXPROCS(1) (sync.Pool hands a returned buffer to the next taker only within one P); the case is evaluated as the request sequence in linearisation order, justified by C01_overlapping_requests_linearizable"])
 
 
